@@ -3,7 +3,7 @@
 (* mutations below (bounded container sizes).  They are what "tracks exactly the objects currently *)
 (* reachable" means structurally, and what makes incremental maintenance possible (FrameLaw).      *)
 EXTENDS Observe
-CONSTANTS MaxKids, KidsOwners, DictOwners, SetOwners
+CONSTANTS MaxKids, KidsOwners, DictOwners, SetOwners, BoxOwners
 VARIABLES h, last
 vars == <<h, last>>
 None == 1000
@@ -22,13 +22,14 @@ Muts == {Mk("child", "", x, <<y, 0, 0>>, <<>>, <<>>) : x \in Obj, y \in 0..NObj}
         \cup {Mk("s", "clear", x, <<0, 0, 0>>, <<>>, <<>>) : x \in SetOwners}
         \cup {Mk("dl", "setitem", x, <<1, 0, 0, 0>>, q, <<>>) : x \in SetOwners, q \in {<<>>} \cup {<<y>> : y \in Obj}}
         \cup {Mk("addx", "", x, <<0, 0, 0>>, <<>>, <<>>) : x \in SetOwners}
-        \cup {Mk("boxassign", "", x, <<0, 0, 0>>, q, <<>>) : x \in SetOwners, q \in {<<>>} \cup {<<y>> : y \in Obj}}
-        \cup {Mk("boxint", "", x, <<0, 0, 0>>, <<>>, <<>>) : x \in SetOwners}
+        \cup {Mk("boxassign", "", x, <<0, 0, 0>>, q, <<>>) : x \in BoxOwners, q \in {<<>>} \cup {<<y>> : y \in Obj}}
+        \cup {Mk("boxint", "", x, <<0, 0, 0>>, <<>>, <<>>) : x \in BoxOwners}
+        \cup {Mk("box", "append", x, <<0, 0, 0>>, <<y>>, <<>>) : x \in BoxOwners, y \in Obj}
         \cup {Mk("del", op, x, <<0, 0, 0>>, <<>>, <<>>) : x \in KidsOwners, op \in {"child", "kids", "d", "s", "dl"}}
 Init == h = Empty /\ last = Mk("init", "", 1, <<0, 0, 0>>, <<>>, <<>>)
 Do(m) == /\ (m.t = "kids" => L!Apply(m.op, h.kids[m.x], "id", m.a, m.xs).excs = {""})
          /\ h' = Mutate(h, m) /\ last' = m
-         /\ \A x \in Obj : Len(h'.kids[x]) <= MaxKids
+         /\ \A x \in Obj : Len(h'.kids[x]) <= MaxKids /\ Len(h'.box[x]) <= MaxKids
 Next == \E m \in Muts : Do(m)
 Spec == Init /\ [][Next]_vars
 
